@@ -17,7 +17,22 @@ def _check(assumptions, goal, timeout_ms):
     s = z3.Solver(); s.set("timeout", timeout_ms)
     s.add(*assumptions); s.add(z3.Not(goal))
     r = s.check()
+    if r == z3.unknown and _nonlinear(list(assumptions) + [goal]):
+        # second attempt with products of variables treated as opaque terms (no nonlinear arithmetic reasoning): only `unsat` is taken from it -
+        # it is a weaker theory, so unsat there is unsat in the integers; the facts about products then come from the instantiated (Lean-proved) lemmas alone
+        s2 = z3.Solver(); s2.set("timeout", timeout_ms); s2.set("arith.nl", False)
+        s2.add(*assumptions); s2.add(z3.Not(goal))
+        if s2.check() == z3.unsat: return z3.unsat, None
     return r, (s.model() if r == z3.sat else None)
+def _nonlinear(terms):
+    seen = set()
+    def rec(t):
+        if t.get_id() in seen: return False
+        seen.add(t.get_id())
+        if z3.is_quantifier(t): return rec(t.body())
+        if z3.is_app(t) and t.decl().kind() == z3.Z3_OP_MUL and sum(1 for c in t.children() if not (z3.is_int_value(c) or z3.is_rational_value(c))) >= 2: return True
+        return any(rec(c) for c in t.children())
+    return any(rec(t) for t in terms)
 
 def _qf(pc): return [p for p in pc if not _has_quant(p)]
 def _has_quant(t):
